@@ -415,6 +415,37 @@ VARIANTS = [
                 "new": "                bound = functools.partial(_run_handler_wrapper, handler, inner_args, kwargs)\n"
                        "                create_logged_task(bound(), self.name, LOG)\n"},
                {"file": EVENTS, "old": "import asyncio\nimport logging\n", "new": "import asyncio\nimport functools\nimport logging\n"}]},
+    # ------------------------------------------------------------------ audit round (variants anchored on the FIXED text)
+    {"name": "R3 tail drops a taken original again although it is finalized (audit fix 1 reverted)", "file": LLUDP, "expect": "C07.R3",
+     "old": "        if message.queued and not message.finalized:\n", "new": "        if message.queued:\n"},
+    {"name": "P R3 tail drop guard as nested ifs", "file": LLUDP, "expect": "silent",
+     "old": "        if message.queued and not message.finalized:\n            region.circuit.drop_message(message)\n",
+     "new": "        if message.queued:\n            if not message.finalized:\n                region.circuit.drop_message(message)\n"},
+    {"name": "R3 command channel drops an already finalized chat (audit fix 2 reverted)", "file": ADDONS, "expect": "C07.R3",
+     "old": "                if not message.finalized:\n                    region.circuit.drop_message(message)\n"
+            "                with addon_ctx.push(session, region):\n",
+     "new": "                region.circuit.drop_message(message)\n                with addon_ctx.push(session, region):\n"},
+    {"name": "P R3 command channel drop guard with a comment and a debug line", "file": ADDONS, "expect": "silent",
+     "old": "                if not message.finalized:\n                    region.circuit.drop_message(message)\n"
+            "                with addon_ctx.push(session, region):\n",
+     "new": "                if not message.finalized:\n                    LOG.debug('claiming command chat')\n"
+            "                    region.circuit.drop_message(message)\n                with addon_ctx.push(session, region):\n"},
+    {"name": "R1 raw hook result returned out of the guarded region (audit fix 3 reverted)", "file": ADDONS, "expect": "C07.R1",
+     "old": "            ret = hook_func(*args, **kwargs)\n", "new": "            return hook_func(*args, **kwargs)\n            ret = None\n"},
+    {"name": "P R1 hook result truth-tested with an explicit if inside the try", "file": ADDONS, "expect": "silent",
+     "old": "            return ret if ret else None\n",
+     "new": "            if not ret:\n                return None\n            return ret\n"},
+    {"name": "R3 dropping a message without packet id is forgotten (audit fix 4 reverted)", "file": PCIRC, "expect": "C07.R3",
+     "old": "            message.dropped = True\n            message.finalized = True\n            return\n", "new": "            return\n"},
+    {"name": "P R3 flags set before the packet id test", "expect": "silent",
+     "edits": [{"file": PCIRC, "old": "            message.dropped = True\n            message.finalized = True\n            return\n",
+                "new": "            return\n"},
+               {"file": PCIRC, "old": "            raise RuntimeError(f\"Trying to drop finalized {message!r}\")\n        if message.packet_id is None:\n",
+                "new": "            raise RuntimeError(f\"Trying to drop finalized {message!r}\")\n        message.dropped = True\n"
+                       "        message.finalized = True\n        if message.packet_id is None:\n"},
+               {"file": PCIRC, "old": "        fwd_injections.mark_dropped(message.packet_id)\n        message.dropped = True\n"
+                                      "        message.finalized = True\n",
+                "new": "        fwd_injections.mark_dropped(message.packet_id)\n"}]},
     # ------------------------------------------------------------------ documented limits
     {"name": "R4 queued original dropped only when reliable", "file": LLUDP, "expect": "C07.R4",
      "old": "        if message.queued:\n            region.circuit.drop_message(message)\n",
